@@ -64,6 +64,10 @@ unsigned int irc_ntop(char *output, unsigned int out_size, const irc_inaddr *add
             max_start = ii - curr_zeros;
             max_zeros = curr_zeros;
         }
+        /* A lone leading zero group is printed as "0", so there is
+         * nothing left for "::" to stand for. */
+        if ((max_start == 0) && (max_zeros == 1))
+            max_zeros = 0;
 
         /* Print out address. */
 #define APPEND(CH) do { if (pos < out_size) output[pos] = (CH); pos++; } while (0)
